@@ -77,7 +77,19 @@ func init() {
 func c06History(r *core.Run, expr string, idx []int, warm bool, fresh map[int]core.Obs) *core.Violation {
 	e, co := core.Compile(expr)
 	if e == nil {
-		_ = co
+		// a text that does not compile must fail the one-shot Search in the same way, on every document of the history
+		for step, j := range idx {
+			one := core.Search(expr, c06Docs()[j])
+			r.Add("evaluations", 1)
+			if one.Key() != co.Key() {
+				hs := make([]string, len(idx))
+				for i, j := range idx {
+					hs[i] = fmt.Sprint(j)
+				}
+				return &core.Violation{Sig: "C06/compile-fails-but-search-differs/" + fnOf(expr), Desc: fmt.Sprintf("Compile(%q) fails; Search(%q, document %d)", expr, expr, j),
+					Point: map[string]any{"expr": expr, "history": strings.Join(hs, ","), "warm": warm, "doc": "history " + strings.Join(hs, ",")}, Expected: "the Compile failure: " + co.Short(), Actual: one.Short() + fmt.Sprintf(" (step %d)", step)}
+			}
+		}
 		return nil
 	}
 	docs := c06Docs()
@@ -159,6 +171,21 @@ func c06Expressions(thorough bool) []string {
 		}
 	}
 	for _, e := range c06Exprs {
+		add(e)
+	}
+	// expressions that hand the caller's own array (or object) on unchanged, under every construct that might be tempted to
+	// work in place
+	aliases := []string{"a", "a[*]", "(a)", "@.a", "$.a", "a || b", "a && a", "not_null(a)", "not_null(`null`, a)", "[a][0]", "{x: a}.x", "a | @", "let $x = a in $x", "to_array(a)", "a[:]", "b", "b[*]", "c", "merge(c)"}
+	consumers := []string{"sort(%s)", "reverse(%s)", "sort_by(%s, &@)", "sort_by(%s, &a)", "max_by(%s, &a)", "[%s][]", "%s[]", "%s[*]", "%s[?@]", "merge(%s, %s)", "zip(%s, %s)", "map(&@, %s)", "%s[1:]", "join(',', %s)", "%s | sort([*])",
+		"%s | reverse([*])", "%s | [*]", "%s | []", "values(%s)", "items(%s)", "from_items(%s)", "group_by(%s, &k)"}
+	for _, al := range aliases {
+		for _, c := range consumers {
+			add(strings.ReplaceAll(c, "%s", al))
+		}
+	}
+	// keywords and other texts on the border of the grammar: Compile and one-shot Search must agree on them
+	for _, e := range []string{"let", "in", "let.a", "a.let", "in.a", "a.in", "let $x", "let $x = a", "let $x = a in", "{let: a}", "{in: a}", "[let]", "[in]", "let(a)", "in(a)", "$let", "$in", "let $let = a in $let", "let $in = a in $in",
+		"\"let\"", "\"in\"", "a", " a", "a ", "", " ", "@", "$", "*", "&a", "`1`", "''", "\"\""} {
 		add(e)
 	}
 	// every built-in with document arguments
